@@ -24,28 +24,28 @@ Definition ta3 : table := [[VInt 1; VInt 1; VInt 10]; [VInt 2; VInt 1; VInt 20];
 Definition tb3 : table := [[VInt 1; VInt 1; VInt 100]; [VInt 2; VInt 1; VInt 5]].
 Definition w3 : case :=
   Sql (mkq [(3%nat, ta3); (3%nat, tb3)] [(JInner, Some (EAnd (ECmp CEq (ECol 1) (ECol 4)) (ECmp CLt (ECol 2) (ECol 5))))] None (Some [0%nat; 3%nat]))
-      false true [ORows [[VInt 1; VInt 1]; [VInt 2; VInt 1]]].
+      false [] true [ORows [[VInt 1; VInt 1]; [VInt 2; VInt 1]]].
 Definition w4 : case :=
   Sql (mkq [(3%nat, ta3); (3%nat, tb3)] [(JLeft, Some (ECmp CEq (ECol 1) (ECol 4)))] (Some (ECmp CEq (ECol 2) (ELit (VInt 10)))) (Some [0%nat; 3%nat]))
-      false true [ORows [[VInt 1; VInt 1]; [VInt 1; VInt 2]]].
+      false [] true [ORows [[VInt 1; VInt 1]; [VInt 1; VInt 2]]].
 Definition w8 : case :=
   Sql (mkq [(2%nat, [[VInt 1; VFloat 0]; [VInt 2; VFloat 4607182418800017408]]);
             (2%nat, [[VInt 1; VFloat 9223372036854775808]; [VInt 2; VFloat 4607182418800017408]])]
            [(JInner, Some (ECmp CEq (ECol 1) (ECol 3)))] None (Some [0%nat; 2%nat]))
-      false true [ORows [[VInt 1; VInt 1]; [VInt 2; VInt 2]]].
+      false [] true [ORows [[VInt 1; VInt 1]; [VInt 2; VInt 2]]].
 Definition w2 : case :=
   Sql (mkq [(3%nat, ta3); (3%nat, tb3)] [(JInner, Some (ECmp CEq (ECol 1) (ECol 4)))] None None)
-      false true [ORows [[VInt 1; VInt 1; VInt 10; VInt 1; VInt 1; VInt 100]; [VInt 2; VInt 1; VInt 20; VInt 1; VInt 1; VInt 100];
+      false [] true [ORows [[VInt 1; VInt 1; VInt 10; VInt 1; VInt 1; VInt 100]; [VInt 2; VInt 1; VInt 20; VInt 1; VInt 1; VInt 100];
                          [VInt 1; VInt 1; VInt 10; VInt 2; VInt 1; VInt 5]; [VInt 2; VInt 1; VInt 20; VInt 2; VInt 1; VInt 5]]].
 Definition w10 : case :=
   Sql (mkq [(3%nat, ta3); (3%nat, tb3)] [(JInner, Some (ECmp CLe (ECol 1) (ECol 4)))] (Some (ECmp CEq (ECol 3) (ELit (VInt 1)))) (Some [0%nat; 3%nat]))
-      true true [ORows [[VInt 1; VInt 1]; [VInt 2; VInt 1]]].
+      true [] true [ORows [[VInt 1; VInt 1]; [VInt 2; VInt 1]]].
 
 (* LEFT JOIN tb ON a1 = b1 AND a1 = a2, bare names (the same-side equality used to be dropped) *)
 Definition w3s : case :=
   Sql (mkq [(3%nat, [[VInt 1; VInt 1; VInt 1]; [VInt 2; VInt 1; VInt 2]; [VInt 3; VNull; VInt 3]]); (2%nat, [[VInt 1; VInt 1]; [VInt 2; VInt 2]])]
            [(JLeft, Some (EAnd (ECmp CEq (ECol 1) (ECol 4)) (ECmp CEq (ECol 1) (ECol 2))))] None (Some [0%nat; 3%nat]))
-      false true [ORows [[VInt 1; VInt 1]; [VInt 2; VNull]; [VInt 3; VNull]]].
+      false [] true [ORows [[VInt 1; VInt 1]; [VInt 2; VNull]; [VInt 3; VNull]]].
 
 Definition repaired (c : case) : bool := model_agrees c && spec_ok c && (known_class c =? 0).
 
